@@ -14,7 +14,7 @@ RULE = ('Inputs: typed generator, untyped grammar generator and clash-injected t
         'each of them (compositions of depth 2); each returned tree is walked. evaluations = trees walked; '
         'non-trivial = tree with an operator/function whose parameter type is narrower than the operand kind\'s '
         'default; distinct = shape x producing API chain.')
-RULE_ADDED = ' Since the seeding rounds: quantifiers over tiny reference sets, free variables named like a neighbouring bound variable, own-alias/bare spellings of one field at the property entry point, human-written corpus, quantifiers over literal domains whose variable occurs several times at kinds of its own.'
+RULE_ADDED = ' Since the seeding rounds: quantifiers over tiny reference sets, free variables named like a neighbouring bound variable, own-alias/bare spellings of one field at the property entry point, human-written corpus, quantifiers over literal domains whose variable occurs several times at kinds of its own; bound-variable occurrences placed under a nested quantifier (condition or domain).'
 ASSUMPTIONS = ['signature tables of DESIGN.md Appendix A.2/A.3 are the documented typing; "same reference" is computed '
                'structurally (same accessor path from the same base, quantifier scope respected)']
 FLOORS = {
@@ -187,7 +187,14 @@ def run(ctx):
                     return ('bin', gen.pick(rng, ('=', '!=')), A.var(v), A.var('y'))
                 if r < 0.35:
                     return ('bin', '=', A.var(v), gen.pick(rng, lits[gen.pick(rng, ('NUMBER', 'STRING', 'BOOL'))]))
-                return c05.USES[gen.pick(rng, (elem, elem, 'NUMBER', 'STRING', 'BOOL'))](A.var(v))
+                u = c05.USES[gen.pick(rng, (elem, elem, 'NUMBER', 'STRING', 'BOOL'))](A.var(v))
+                if rng.random() < 0.3:
+                    # the occurrence sits inside a nested quantifier (its condition, or now and then its domain)
+                    ctx.count('bound_variable_used_under_nested_quantifier')
+                    ndom = ('set', (A.num('3'), A.var(v))) if rng.random() < 0.2 else ('set', (A.num('3'), A.num('4')))
+                    return ('quant', gen.pick(rng, ('forall', 'exists')), 'qw', ndom,
+                            ('bin', gen.pick(rng, ('and', 'or')), ('bin', '>', A.var('qw'), A.num('0')), u))
+                return u
             body = use()
             for _ in range(rng.randrange(1, 3)):
                 body = ('bin', gen.pick(rng, ('and', 'or', 'implies')), body, use()) if rng.random() < 0.5 \
